@@ -34,6 +34,8 @@ def features(files, folders, opts):
     f = set()
     if len(folders) >= 2:
         f.add("folders>=2")
+    if any(fo["n"] == 0 for fo in folders):
+        f.add("empty-folder")
     seen_data = False
     for i, x in enumerate(files):
         if not x.get("es"):
@@ -83,7 +85,7 @@ def features(files, folders, opts):
     return f
 
 
-PY_WRITER_NEVER = {"folders>=2", "interleaved-empty", "folder-crc", "subcrc-partial", "packpos", "dummy", "emptyfile-vec", "attr-partial", "attr-none",
+PY_WRITER_NEVER = {"empty-folder", "folders>=2", "interleaved-empty", "folder-crc", "subcrc-partial", "packpos", "dummy", "emptyfile-vec", "attr-partial", "attr-none",
                    "mtime-partial", "ctime/atime", "substreams-omitted", "numunpack-explicit", "no-alldefined-shortcut", "pack-crc", "no-streams",
                    "dir-without-dir-attr"}
 
